@@ -249,6 +249,47 @@ fn minimise_cmd(args: &[String]) -> i32 {
     }
     let mut m = minimise::Minimiser { prop: &p, rule: rule.clone(), runs: 0, budget: 1500 };
     let small = m.minimise(&sc);
+    // make the schedule explicit: replay the recorded decision list instead of the seeded policy,
+    // then shorten it (the suffix falls back to "lowest task id") while the same rule still fails
+    let mut small = small;
+    {
+        let (vs0, out0) = check_scenario(&p, &small);
+        if vs0.iter().any(|v| v.rule == rule) {
+            let full = out0.decisions.clone();
+            let mut cand = small.clone();
+            cand.sched.decisions = Some(full.clone());
+            let (vsx, outx) = check_scenario(&p, &cand);
+            if vsx.iter().any(|v| v.rule == rule) && !outx.outcome.replay_diverged {
+                let mut best = full.clone();
+                // try ever shorter prefixes
+                let mut len = best.len();
+                let mut step = (len / 2).max(1);
+                let mut tries = 0;
+                while step >= 1 && tries < 60 {
+                    tries += 1;
+                    if len < step {
+                        step /= 2;
+                        continue;
+                    }
+                    let mut c2 = small.clone();
+                    c2.sched.decisions = Some(best[..len - step].to_vec());
+                    let (v2, _) = check_scenario(&p, &c2);
+                    m.runs += 1;
+                    if v2.iter().any(|v| v.rule == rule) {
+                        len -= step;
+                    } else {
+                        step /= 2;
+                    }
+                    if step == 0 {
+                        break;
+                    }
+                }
+                best.truncate(len);
+                cand.sched.decisions = Some(best);
+                small = cand;
+            }
+        }
+    }
     // two confirmation runs in this process; the driver replays once more in a fresh process
     let (vs1, out1) = check_scenario(&p, &small);
     let (vs2, out2) = check_scenario(&p, &small);
